@@ -2,15 +2,16 @@
 #pragma once
 #include "fixture.h"
 
-enum { CONC_NBODIES = 13 };
-static const char *CONC_BODY_NAMES[CONC_NBODIES] = { "parse(own text)", "resolve(shared ref, shared base)", "shorten(shared source, shared base)", "maskRequired(shared)", "toString(shared)", "equals(shared, shared)", "dissectQuery(shared text)", "composeQuery(shared list)", "normalize(own copy)", "makeOwner(own)", "escape+unescape(own buffers)", "filename conversions(own buffers)", "wchar_t: parse+normalize+resolve+toString(own)" };
+enum { CONC_NBODIES = 14 };
+static const char *CONC_BODY_NAMES[CONC_NBODIES] = { "parse(own text)", "resolve(shared ref, shared base)", "shorten(shared source, shared base)", "maskRequired(shared)", "toString(shared)", "equals(shared, shared)", "dissectQuery(shared text)", "composeQuery(shared list)", "normalize(own copy)", "makeOwner(own)", "escape+unescape(own buffers)", "filename conversions(own buffers)", "wchar_t: parse+normalize+resolve+toString(own)", "parse(shared read-only text)+normalize+makeOwner(own object)" };
 
 struct ConcWorld {
     UriMemoryManager *mm;          // manager used for every allocation of the bodies (NULL = libc)
-    ArenaMM ro; RoUri<char> ref, base, src, messy, ip4; UriQueryListA *qlist; const char *qtext; size_t qlen;
+    ArenaMM ro; RoUri<char> ref, base, src, messy, ip4; UriQueryListA *qlist; const char *qtext; size_t qlen; const char *shared_texts[4];
     explicit ConcWorld(UriMemoryManager *m) : mm(m), ro(16) {
         ref = make_ro<char>(ro, "../x/./y/../z?k=v#frag"); base = make_ro<char>(ro, "s://user@[::1]:8080/a/b/c/d?bq");
         src = make_ro<char>(ro, "s://user@[::1]:8080/a/x/y?sq#sf"); messy = make_ro<char>(ro, "S://U%41@H.X:80/%7e/./A/../b?Q%41#%2f"); ip4 = make_ro<char>(ro, "s://u@192.168.100.7:80/p/q?x#y");
+        { const char *st[4] = { "S://U%41@[A::B]:80/%7e/./A/../b?Q%41#%2f", "s://[vF.X]/P%2e", "//H%41.X/%2E%2E/a:b", "//1%2E2.3.4:8/x" }; for (int i = 0; i < 4; i++) { char *c = (char *)ro.arena.alloc(strlen(st[i]) + 1); strcpy(c, st[i]); shared_texts[i] = c; } }
         const char *q = "a=1&b=%41+c&&d=&e"; qlen = strlen(q); char *qt = (char *)ro.arena.alloc(qlen + 1); memcpy(qt, q, qlen + 1); qtext = qt;
         qlist = (UriQueryListA *)ro.arena.alloc(3 * sizeof(UriQueryListA)); const char *kv[][2] = { { "k 1", "v&1" }, { "k=2", 0 }, { "", "\n" } };
         for (int i = 0; i < 3; i++) { for (int j = 0; j < 2; j++) { const char *s = kv[i][j]; char *c = 0; if (s) { c = (char *)ro.arena.alloc(strlen(s) + 1); strcpy(c, s); } if (j == 0) qlist[i].key = c; else qlist[i].value = c; } qlist[i].next = i < 2 ? &qlist[i + 1] : 0; }
@@ -43,6 +44,9 @@ struct ConcWorld {
             int rc2 = mm ? uriNormalizeSyntaxExMmW(&wu, 63, mm) : uriNormalizeSyntaxW(&wu); int rc3 = mm ? uriAddBaseUriExMmW(&wd, &wu, &wb, URI_RESOLVE_STRICTLY, mm) : uriAddBaseUriW(&wd, &wu, &wb); int tt;
             r = fmt("rc=%d/%d/%d/%d ", rc, rcb, rc2, rc3) + observe<wchar_t>(wu).key() + " " + to_text<wchar_t>(wu, &tt) + " " + (rc3 ? Str("-") : to_text<wchar_t>(wd, &tt));
             if (mm) { uriFreeUriMembersMmW(&wd, mm); uriFreeUriMembersMmW(&wu, mm); uriFreeUriMembersMmW(&wb, mm); } else { uriFreeUriMembersW(&wd); uriFreeUriMembersW(&wu); uriFreeUriMembersW(&wb); } return r; }
+        case 13: for (int i = 0; i < 4; i++) { const char *t = shared_texts[i]; rc = mm ? uriParseSingleUriExMmA(&u, t, t + strlen(t), &ep, mm) : uriParseSingleUriA(&u, t, &ep); int rc2 = mm ? uriNormalizeSyntaxExMmA(&u, (unsigned)(i & 1 ? 63 : 4), mm) : uriNormalizeSyntaxExA(&u, (unsigned)(i & 1 ? 63 : 4));
+                int rc3 = mm ? uriMakeOwnerMmA(&u, mm) : uriMakeOwnerA(&u); int tt; r += fmt("rc=%d/%d/%d ", rc, rc2, rc3) + observe<char>(u).key() + " " + to_text<char>(u, &tt) + "; "; if (mm) uriFreeUriMembersMmA(&u, mm); else uriFreeUriMembersA(&u); }
+            return r;
         }
         return "?";
     }
